@@ -78,6 +78,7 @@ fn classify_last(prev: &Pos, m: RMove, now: &Pos, st: &mut Stats) {
     st.class_if(discovered && cls != "castle", "discovered-check");
     st.class_if(cls == "castle", "check-by-castling");
     st.class_if(cls == "en-passant", "check-after-en-passant");
+    st.class_if(cls == "en-passant" && discovered, "discovered-check-by-en-passant");
     st.class_if(m.promo == Some(Kind::N) && direct, "check-by-knight-promotion");
     st.class_if(m.promo.is_some() && m.promo != Some(Kind::N), "check-after-slider-promotion");
     st.class_if(checkers.count_ones() == 2, "double-check-by-move");
@@ -182,7 +183,7 @@ pub fn run(ctx: &Ctx) -> Report {
     rep.assumptions = vec!["reference attackers()/pinned_mask() implement the wording of C03".into()];
     rep.required_classes = vec![
         "checkers=1", "checkers>=2", "pinned-nonempty", "enemy-piece-on-pin-line", "after-null-move", "discovered-check", "check-by-castling",
-        "check-after-en-passant", "check-by-knight-promotion", "check-after-slider-promotion", "transposition-pair",
+        "check-after-en-passant", "discovered-check-by-en-passant", "check-by-knight-promotion", "check-after-slider-promotion", "transposition-pair",
     ];
     let cases = ctx.tier.scale(120_000, 25);
     // keep track of the previous position to classify how a check arose
